@@ -38,8 +38,19 @@ def read_layers(run):
                  ("mid", 2, 70, "gzip", [], "dir", "node", 1),         # streams closed by compressed size
                  ("zown", ch, 0, "zstd", ["f2", "d/f1"], "dir", "reader", 4),   # 4 build workers
                  ("gown", ch, 0, "gzip", [], "mem", "reader", 1)]      # plain gzip default build
-    return [dict(name=n, entries=ents, chunk=c, minchunk=m, comp=comp, prio=p, cache=ck, via=via, workers=w)
-            for n, c, m, comp, p, ck, via, w in grid]
+    res = [dict(name=n, entries=ents, chunk=c, minchunk=m, comp=comp, prio=p, cache=ck, via=via, workers=w)
+           for n, c, m, comp, p, ck, via, w in grid]
+    lens = ["{1, 4, 9}", "{1, 4, 9}", "{2, 9}"] if not thorough else ["{1, 2, 3, 5, 10}"] * 6 + ["{1, 4, 9}"]
+    for l, ln in zip(res, lens):
+        l["gen"] = {"Lens": ln}
+    # a file of 10 chunks of 50 bytes (chunk offsets >= 64, not aligned): reads at and across chunk boundaries and of the
+    # whole file; the environment may drop the 2nd and the 9th chunk only (keeps the state graph small)
+    big = dict(name="big", entries=[ent(["big"], "reg", file=1, size=500)], chunk=50, minchunk=0, comp="gzip", prio=[], cache="mem",
+               via="node", workers=1)
+    bounds = {"Offs": "{0, 75, 449, 500}" if not thorough else "{0, 49, 50, 75, 250, 449, 450, 499, 500}", "EvictOffs": "{50, 400}"}
+    big["gen"] = dict(bounds, Lens="{1, 60, 500}" if not thorough else "{1, 51, 120, 500}")
+    big["mc"] = dict(bounds, Lens="{1, 50, 51, 60, 120, 500}")
+    return res + [big]
 
 
 def meta_layers(run):
@@ -60,6 +71,12 @@ def meta_layers(run):
           ent(["l1"], "hardlink", link=["x"]),
           ent(["l2"], "hardlink", link=["l1"], linkstyle="dot"),
           ent(["b"], "block", major=8, minor=1, mode=0o660, gid=6),
+          # every combination of setuid / setgid / sticky on regular files and directories (the single bits are on a/f, a, d)
+          ent(["x6"], "reg", file=4, size=1, mode=0o6755), ent(["x5"], "reg", file=5, size=1, mode=0o5755),
+          ent(["x3"], "reg", file=6, size=1, mode=0o3755), ent(["x7"], "reg", file=7, size=1, mode=0o7711),
+          ent(["x2"], "reg", file=8, size=1, mode=0o2755), ent(["x1"], "reg", file=10, size=1, mode=0o1644),
+          ent(["t3"], "dir", mode=0o3775, gid=8), ent(["t5"], "dir", mode=0o5755), ent(["t6"], "dir", mode=0o6755),
+          ent(["t7"], "dir", mode=0o7711), ent(["t4"], "dir", mode=0o4755, style="dot"),
           # device numbers around the 8 bit / 12 bit boundaries of the rdev encoding
           ent(["c255"], "char", major=1, minor=255, mode=0o600),
           ent(["b256"], "block", major=255, minor=256, mode=0o600),
@@ -73,6 +90,8 @@ def meta_layers(run):
           ent(["u", "v", "k1"], "hardlink", link=["u", "r"]),
           ent(["u", "k2"], "hardlink", link=["u", "v", "k1"], style="dot"),
           ent(["n"], "char", major=0, minor=0, mode=0o000),
+          ent(["u", "sp"], "dir", mode=0o3775, gid=8), ent(["u", "v", "su"], "reg", file=3, size=1, mode=0o6755),
+          ent(["u", "v", "all"], "reg", file=4, size=2, mode=0o7711), ent(["u", "t5"], "dir", mode=0o5750),
           ent(["u", "dri"], "char", major=226, minor=1152, mode=0o660, gid=44),
           ent(["u", "v", "nvme"], "block", major=259, minor=4000 + k, mode=0o660)]
     big = 1 << 20
@@ -169,7 +188,7 @@ def check(run):
                        "non-trivial = trace contains a read / a metadata answer; distinct by hash")
     run.assumptions += ["the compressed blob is a local SectionReader: remote blob, blob chunk cache and fetch failures are C06's",
                         "chunk-cache evictions are imposed by a wrapper around the real memory / directory cache (C11 covers the cache itself)",
-                        "files <= 9 bytes in <= 4 chunks of 2-3 bytes, <= 3 regular files + landmark; tars without a root entry './' (C05/C15 finding)",
+                        "files <= 9 bytes in <= 4 chunks of 2-3 bytes, <= 3 regular files + landmark, plus one file of 10 chunks of 50 bytes read at a bounded set of offsets; tars without a root entry './' (C05/C15 finding)",
                         "free-running traces are decided by the monitor only (each result judged on its own)",
                         "device numbers within the 32 bit rdev of FUSE (major <= 4095, minor <= 1048575)",
                         "FUSE kernel mount and passthrough mode not exercised; node methods are called directly as the repository's suite does"]
@@ -196,17 +215,16 @@ def check(run):
     # ------------------------------------------------------------------ M + generation (ReadPath)
     jobs = []
     exhaustive = True
-    lens_gen = ["{1, 4, 9}", "{1, 4, 9}", "{2, 9}"] if not thorough else ["{1, 2, 3, 5, 10}"] * 6 + ["{1, 4, 9}"]
     for i, l in enumerate(layers):
         lay = layouts[l["name"]]
         current["ReadPathMC.tla"] = mc_module(lay)
         if i == 1 or thorough:
-            run.tlc_mc("ReadPathMC", "ReadPath_mc.cfg", workers=4, timeout=1500, name="ReadPath_mc.cfg layer=%s" % l["name"])
+            run.tlc_mc("ReadPathMC", "ReadPath_mc.cfg", l.get("mc"), workers=4, timeout=1500, name="ReadPath_mc.cfg layer=%s" % l["name"])
         if i == 1:
             # negative controls on the layer whose streams are shared by several chunks/files
             for k in ("LocateOK", "DiscardOK", "InnerSkipOK", "PreReadKeyOK"):
                 run.tlc_negctl("ReadPathMC", "ReadPath_mc.cfg", {k: "FALSE"}, ["ReadEqualsSourceStep", "CacheHoldsOnlySourceBytes"], drop=INTERNAL)
-        inits, edges = run.tlc_edges("ReadPathMC", "ReadPath_gen.cfg", {"Lens": lens_gen[i]}, timeout=1500)
+        inits, edges = run.tlc_edges("ReadPathMC", "ReadPath_gen.cfg", l["gen"], timeout=1500)
         walks, st = edge_cover(inits, edges, maxlen=25, rng=run.rng, extra_walks=60 if thorough else 5)
         log("[walks] %s: %s" % (l["name"], st))
         exhaustive = exhaustive and st["covered"] == st["edges"]
@@ -224,7 +242,7 @@ def check(run):
                 ov = {k: "FALSE"}
                 run.tlc_negctl("TarMetaMC", "TarMeta_mc.cfg", ov, ["MetaEqualsTarStep"], drop=("TarOK",))
         if i == 1:
-            for k in ("LastWins", "MkdevSplit"):        # the tar with duplicate names and large device numbers
+            for k in ("LastWins", "MkdevSplit", "SpecialBitsIndependent"):   # the tar with duplicate names, large device numbers, mode bit combinations
                 run.tlc_negctl("TarMetaMC", "TarMeta_mc.cfg", {k: "FALSE"}, ["MetaEqualsTarStep"], drop=("TarOK",))
         inits, edges = run.tlc_edges("TarMetaMC", "TarMeta_gen.cfg", timeout=1500)
         walks, st = edge_cover(inits, edges, maxlen=25, rng=run.rng, extra_walks=20 if thorough else 4)
@@ -234,7 +252,7 @@ def check(run):
         meta_jobs.append({"layer": l, "kind": "meta", "out": os.path.join(run.scratch, "meta_%s.ndjson" % l["name"]),
                           "walks": [[{k: v for k, v in s.items() if k in ("act", "dir", "name", "path", "key")} for s in w] for w in walks]})
     free_jobs = []
-    for l in layers[1:3] if not thorough else layers:
+    for l in (layers[1:3] if not thorough else layers):
         free_jobs.append({"layer": l, "kind": "free", "out": os.path.join(run.scratch, "free_%s.ndjson" % l["name"]), "walks": [],
                           "traces": 12 if thorough else 4, "readers": 4, "reads": 40 if thorough else 25})
 
